@@ -161,9 +161,10 @@ def extra_oracle(r):
         if r.get("error"):
             return ["stale-timer scenario could not be driven: " + r["error"]]
         if r["execs"] != 1:
-            return ["the loop of the stopped run was inside a slow %s() during Stop(); Start(); a job due in %d ms was scheduled, the new loop parked on it, then "
+            return ["the loop of the stopped run was inside a slow %s during Stop(); Start(); a job due in %d ms was scheduled, the new loop parked on it, then "
                     "the slow call returned (no API call afterwards): the stored job was executed %d times within %d ms + 5 s"
-                    % (r["old_loop_held_in"], r["job_due_in_ms"], r["execs"], r["job_due_in_ms"])]
+                    % ({"SizeDone": "Size() that had already taken its reading (empty queue)", "HeadDone": "Head() that had already taken its reading"}.get(
+                        r["old_loop_held_in"], r["old_loop_held_in"] + "()"), r["job_due_in_ms"], r["execs"], r["job_due_in_ms"])]
     return []
 
 
